@@ -61,6 +61,22 @@ def step (st : St) (toks : List String) : St × String :=
       else if Spec.boundOKSkew i b (Spec.backSteps 0 r) gs then (st, "true")
       else (st, "false more than B+ceil((T+S)/I) starts in some window")
     | _, _, _, _ => (st, "bad-op")
+  | ["oracle", "boundiv", i, b, sk, lo, hi] =>
+    -- every execution is known to have been granted inside [lo_k, hi_k] (queued-at / previous start
+    -- of the same queue .. start time written by the hook process): the bound on every window;
+    -- S = allowance for clock-read skew between queues (0 for a single queue)
+    match (kv? "I" [i]).bind int?, (kv? "B" [b]).bind int?, (kv? "S" [sk]).bind int?,
+          (kv? "lo" [lo]).bind intList?, (kv? "hi" [hi]).bind intList? with
+    | some i, some b, some sk, some los, some his =>
+      if i ≤ 0 || b < 1 || sk < 0 || los.length != his.length then (st, "bad-op")
+      else if Spec.boundOKIv i b sk (los.zip his) then (st, "true")
+      else (st, "false more than B+ceil((T+S)/I) executions certainly granted inside some window")
+    | _, _, _, _, _ => (st, "bad-op")
+  | ["operator-queues", n] =>
+    -- all queues drain and every binding that got events is executed until it succeeds
+    match (kv? "events" [n]).bind String.toNat? with
+    | some _ => (st, "drained")
+    | none => (st, "bad-op")
   | ["oracle", "nodelay", reqs, starts] =>
     -- hooks without settings are not throttled: every execution starts at its request time
     match (kv? "reqs" [reqs]).bind intList?, (kv? "starts" [starts]).bind intList? with
